@@ -148,6 +148,8 @@ pub(crate) mod scheduler;
 pub(crate) mod stream;
 #[cfg(test)]
 pub(crate) mod test;
+#[cfg(feature = "verif")]
+pub mod verif;
 pub(crate) mod worker;
 
 pub type CoordUInt = u64;
